@@ -314,12 +314,12 @@ def c_who_may_grow(ctx: Ctx) -> None:
                             ctx.ok(R, f, call, f'{recv} is a fresh local ({defs[:1]})', key=f'grow-local:{recv}.{call.func.attr}')
 
 
-def c_sharing_guards(ctx: Ctx) -> None:
+def c_sharing_guards(ctx: Ctx, only: tp.Optional[tp.Sequence[str]] = None) -> None:
     R = 'C.sharing-guards'
     ctx.rule(R, 'the places that keep a donor\'s member without copying do so only when both sides are static: '
              'Index.__init__ (labels._map), IndexHierarchy.__init__ (index_level), immutable_index_filter / '
              'mutable_immutable_index_filter / index_from_optional_constructor (return the argument itself), '
-             'FrameGO._to_frame (never owns columns)', floor=6)
+             'FrameGO._to_frame (never owns columns)', floor=6 if only is None else 2)
     prog = ctx.prog
 
     def conj_atoms(tests: tp.List[tp.Tuple[ast.expr, bool]]) -> tp.Set[str]:
@@ -406,6 +406,8 @@ def c_sharing_guards(ctx: Ctx) -> None:
     data = calls[0].args[0] if calls[0].args else kwarg(calls[0], 'data')
     good = '.copy()' in norm(data)
     (ctx.ok if good else ctx.bad)(R, f, calls[0], f'data={norm(data)}' , key='FrameGO._to_frame:data')
+    if only is not None:
+        ctx.obs[:] = [o for o in ctx.obs if o.rule != R or o.key.startswith(tuple(only))]
 
 
 def _known_atoms(f: FuncInfo, target: ast.stmt) -> tp.Set[str]:
